@@ -1308,22 +1308,25 @@ func NewState(opts ...Options) *LState {
 		})
 		ls.OpenLibs()
 	} else {
-		if opts[0].CallStackSize < 1 {
-			opts[0].CallStackSize = CallStackSize
+		// the defaults are filled in on a copy: opts is the caller's slice, and callers creating
+		// states in several goroutines from one Options value must not race on it
+		o := opts[0]
+		if o.CallStackSize < 1 {
+			o.CallStackSize = CallStackSize
 		}
-		if opts[0].RegistrySize < 128 {
-			opts[0].RegistrySize = RegistrySize
+		if o.RegistrySize < 128 {
+			o.RegistrySize = RegistrySize
 		}
-		if opts[0].RegistryMaxSize < opts[0].RegistrySize {
-			opts[0].RegistryMaxSize = 0 // disable growth if max size is smaller than initial size
+		if o.RegistryMaxSize < o.RegistrySize {
+			o.RegistryMaxSize = 0 // disable growth if max size is smaller than initial size
 		} else {
 			// if growth enabled, grow step is set
-			if opts[0].RegistryGrowStep < 1 {
-				opts[0].RegistryGrowStep = RegistryGrowStep
+			if o.RegistryGrowStep < 1 {
+				o.RegistryGrowStep = RegistryGrowStep
 			}
 		}
-		ls = newLState(opts[0])
-		if !opts[0].SkipOpenLibs {
+		ls = newLState(o)
+		if !o.SkipOpenLibs {
 			ls.OpenLibs()
 		}
 	}
